@@ -12,1032 +12,1050 @@ Definition show_fres (r : fres) : string :=
   end.
 Definition check (rs : list rune) : string := digest (show_fres (format_res rs)).
 Definition full (rs : list rune) : string := show_fres (format_res rs).
-Eval vm_compute in ("<<<M5>>>" ++ check (runes_of_ascii "MetaData  asx {char[] MetaDataX ,
-lengthOf Z9_	, crc
-    Foo ,char[ 4294967296]
-BodyLength , Foo leftPad `doc`, tag // a // b
-u128 , } root packet
-    stringy { // trailing space 
-match Header as
-    repeatCount	{ [ ""{,}""] :
+Eval vm_compute in ("<<<M146>>>" ++ check (runes_of_ascii "MetaData
+chars {	int8 Z9_,	float rootA	`tab	here`// @lengthOf(
+,
+//x
+// @lengthOf(
+T o `it's` ,
+roots int , // c
+repeatCount MetaDataX, float32
+    falsey `say ""hi""`,} packet
+    msg_type
+{ repeat f32
+o // `tick` ""quote"" 'q'
+, @tag( 0
+)char[]  A	,  repeat char[] tag `say ""hi""` ,repeat char[ 0 ] Z9_ ,
+zchar[ 1 ] lengthOf ,
+i64 T , match float as
+leftPad {
+    007 : len /// triple
+, ""it's"" : len
+    , ""it's"" : // @lengthOf(
+float
+    [ 255 ,
+00
+, ""abc"", ""abc""
+,
+1
+, """ ++ [28040; 24687]%N ++ runes_of_ascii """ // `tick` ""quote"" 'q'
+, ""x y"" , """" // a // b
+] :	_x ,
+    """" : len ,""\" ++ [233]%N ++ runes_of_ascii """  : // a // b
+i64_
+, //	t
+}, roots{ char[ 1
+]// @lengthOf(
 Header
-/// triple
-//
-,255 :repeatCount , 00 :pack, 1 : trueish
-    , 7
-    : A }
-    ,
-T
-    {Z9_
-`
-` ,
-} ,
-    int16 o
-@calculatedFrom(
-""it's""
-) `line1
-line2`	, match zchar
-as As{ ""CRC32"" :	a1, 42: Header [ 10
-    //
-    ] : zchar // trailing space 
+@lengthOf( x_y_z )
+    , body u128 , // `tick` ""quote"" 'q'
+char[]
+float ,chars@lengthOf( x  )
+    `doc` ,}
 ,
-    }// " ++ [128512]%N ++ runes_of_ascii " emoji
-, @tag( 42 )repeat i64_{
-    // c
-    char[00 ] _x `{ , }` ,
-}
-,repeat //x
-char[] uint8x
-`crlf
-line` ,@leftPad
-(	'\x00'
-    ) @tag( 7 )
-    int32
-// a // b
-// @lengthOf(
-repeatCount
-    @calculatedFrom(
-""x y"" )
-`// not a comment` , u32 zchar
-    `
-` , repeat stringy { i8i8 lengthOf
-, } , // packet A { u8 x, }
-@calculatedFrom(  ""abc"" ) @lengthOf( tag ) @lengthOf( /// triple
-rootA )  char[3	] // c
-rootA`" ++ [233]%N ++ runes_of_ascii "` ,// c
-}MetaData crc
-{
-float32
-asx `" ++ [233]%N ++ runes_of_ascii "` ,	string i64_// " ++ [128512]%N ++ runes_of_ascii " emoji
-,
-    }
-root packet Packet
-    //
-    {charz @lengthOf( zchar) ,	f32
-    f32a `{ , }` // a // b
-, i64 matchKey @lengthOf( leftPad )
-    , string trueish, @leftPad (  '0')
+    crc `it's`
+    // `tick` ""quote"" 'q'
+    , @calculatedFrom(""" ++ [128512]%N ++ runes_of_ascii """
+    )
+    BodyLength `" ++ [28040; 24687; 31867; 22411]%N ++ runes_of_ascii "` , }
+    packet
+    u128{  lengthOf ,pack
+@lengthOf( u8x// c
+)`// not a comment`// " ++ [27880; 37322]%N ++ runes_of_ascii "
+,@leftPad
+    (
+' ' ) float{match
+    asx as
+    charz
+{ [ 4294967296,""""
+, 255 ,42
+    ,""1""  ] : u8x ""{,}""	: Foo 42  :
+leftPad[ // trailing space 
+255 ,
+    // " ++ [128512]%N ++ runes_of_ascii " emoji
+    ""a\""b"" , ""it's""  , 4294967296 ] : stringy , 3
+:Header ,
+} ,match o // `tick` ""quote"" 'q'
+as
+    Pad
     // trailing space 
-    tag@lengthOf( // a // b
-string_ ) `doc` , match stringy
-// @lengthOf(
-// @lengthOf(
-as calculatedFrom
-    { [
-0123456789 ]: repeatCount
-//	t
-//
-,} ,// trailing space 
-char[
-3]
-Header ,
-int64 MetaDataX
-,	@leftPad( ) len { packetx @lengthOf(chars ) `` ,
-    }, @rightPad ( '0'
-    )  x_y_z
-,
-} options{ rootA
-// packet A { u8 x, }
-//x
-= '0'
-; Foo =char
-    ;A
-    = zchar[ 0123456789 ]
+    { 3 :
+    i64_//x
+, } ,repeat
+    string msg_type ,
+    match
+packetx // " ++ [27880; 37322]%N ++ runes_of_ascii "
+as
+lengthOf
+    { [ ""x y"","""" ]
+:x_y_z
 // " ++ [27880; 37322]%N ++ runes_of_ascii "
-//x
-;packetx = """ ++ [233]%N ++ runes_of_ascii "t" ++ [233]%N ++ runes_of_ascii """
-float = true } //x")).
-Eval vm_compute in ("<<<M385>>>" ++ check (runes_of_ascii "options {
-    StringPrefixLenType = u16;
-    ArrayPrefixLenType = u16;
+// c
+}, } ,i64 float,repeat
+    zchar[ 3  ] rootA
+    `crlf
+line`, match msg_type as len{
+""CRC32"":
+MetaDataX
+,
+} ,
+    f32
+A , char[
+0123456789 ] chars// " ++ [27880; 37322]%N ++ runes_of_ascii "
+`{ , }` , /// triple
+@calculatedFrom( ""a\""b""
+) string
+string_
+    `" ++ [233]%N ++ runes_of_ascii "` ,}
+")).
+Eval vm_compute in ("<<<M1775>>>" ++ check (runes_of_ascii "packet _x {
+    leftPad `it's`,
+    match Logon as matchKey {
+        ""packet"" : stringy,
+        3 : u,
+        //
+        ""1"" : Pad,
+    },
+    float32 Z9_ @lengthOf(i8i8) `" ++ [233]%N ++ runes_of_ascii "`,
+    @tag(3)
+    match As as Pad {
+        """" : chars,
+        ""x y"" : i64_,
+    },
+    @calculatedFrom(""it's"")
+    @leftPad(' ')
+    zchar[0123456789] falsey,
+    match A as packetx {
+        [42] : matchKey,
+    },
+    @leftPad(' ')
+    match x as a1 {
+        ""packet"" : a1,
+        10 : pack,
+        ""{,}"" : u8x,
+        [007, 00] : trueish,
+        ""x y"" : pack,
+        """ ++ [233]%N ++ runes_of_ascii "t" ++ [233]%N ++ runes_of_ascii """ : matchKey,
+    },
+    @leftPad('0')
+    uint8x u,
+    zchar[3] u ``,
+    @rightPad(' ')
+    repeat _x ``,
 }
 
-packet SampleBinary {
-    uint16 MsgType `" ++ [28040; 24687; 31867; 22411]%N ++ runes_of_ascii "`,
-    u16 BodyLenght @lengthOf(Body) `" ++ [28040; 24687; 20307; 38271; 24230]%N ++ runes_of_ascii "`,
-    match MsgType as Body {
-        1 : Logon,
-        2 : Logout,
-        3 : Heartbeat,
-        4 : RiskControlRequest,
-        5 : RiskControlResponse,
+MetaData Foo {
+    a1 Z9_,
+    options1 T,
+    u32 u8x `crlf
+        line`,
+    metadata falsey,
+    lengthOf x_y_z,
+}
+
+packet calculatedFrom {
+    @tag(3)
+    string A,
+    match leftPad as a1 {
+        //	t
+        0123456789 : calculatedFrom,
     },
-    @calculatedFrom(""CRC32"")
-    u32 Ckecksum `" ++ [26657; 39564; 21644]%N ++ runes_of_ascii "`,
+    match crc as body {
+        00 : _x,
+    },
+    o @calculatedFrom(""x y""),
+}
+
+packet T {
+}
+
+packet Logon {
+    @leftPad('\x00')
+    As @calculatedFrom(""a	b"") `line1
+        line2`,
+    pack lengthOf,
+}// `tick` ""quote"" 'q'")).
+Eval vm_compute in ("<<<M1344>>>" ++ check (runes_of_ascii "options {
+    FixedStringPadFromLeft = true;
+    FixedStringPadChar = '0';
+}
+packet Leg {
+    InPrice0 {
+        repeat string clOrdID,
+        int16 msgKind,
+        zchar[5] Px,
+    },
+    i16 f1,
+    repeat f64 Side2,
+    string Acct,
+}
+packet Cancel {
+    zchar[4] clOrdID,
+    string seqNo,
+    Leg,
+    @leftPad('0') char[11] OrderId,
+}
+packet Quote {
+    repeat char[4] sym,
+    f64 OrderId,
+    repeat Leg,
+    repeat i64 f1,
+    int16 Note,
+    zchar[3] count,
+}
+root packet Ack {
+    @leftPad(' ') char[10] sym,
+    InPx60 {
+        Cancel,
+        repeat char[1] f1,
+        string Tail,
+        repeat InNote55 {
+            int8 count,
+            f64 f1,
+            repeat Cancel,
+        },
+        char[] tag7,
+        repeat string msgKind,
+    },
+    u8 lastPx,
+    match lastPx as Body {
+        152 : Quote,
+        173 : Cancel,
+        4 : Leg,
+    },
+    u16 Ref @calculatedFrom(""CR\
+C32""),
+}
+")).
+Eval vm_compute in ("<<<M1380>>>" ++ check (runes_of_ascii "// top
+options
+    // c0
+{ // c1a
+  // c1b
+LittleEndian // c2
+=
+    // c3
+true // c4a
+  // c4b
+; }
+    // c6
+packet // c7
+Logon { u8
+    // c10
+x , // c12
+} // c13a
+  // c13b
+packet Logout // c15
+{ // c16a
+  // c16b
+u16 reason , } // c20
+root // c21a
+  // c21b
+packet Frame { u8
+    // c25
+Kind , // c27a
+  // c27b
+u8
+    // c28
+Kind2
+    // c29
+, match // c31
+Kind
+    // c32
+as
+    // c33
+Body // c34a
+  // c34b
+{
+    // c35
+1 :
+    // c37
+Logon // c38a
+  // c38b
+, // c39
+[ // c40a
+  // c40b
+2
+    // c41
+,
+    // c42
+3
+    // c43
+, 4 // c45a
+  // c45b
+] // c46
+: Logout // c48a
+  // c48b
+,
+    // c49
+100
+    // c50
+:
+    // c51
+Logon
+    // c52
+, // c53a
+  // c53b
+} // c54
+, // c55
+match // c56
+Kind2 as // c58
+Trailer { // c60a
+  // c60b
+0 : Logout // c63a
+  // c63b
+, // c64a
+  // c64b
+} // c65a
+  // c65b
+, // c66
+} // c67
+")).
+Eval vm_compute in ("<<<M1356>>>" ++ check (runes_of_ascii "options {
+    StringPrefixLenType = u16;
+    ArrayPrefixLenType = u32;
+    FixedStringPadFromLeft = true;
+    FixedStringPadChar = '0';
+}
+packet Cancel {
+}
+packet Party {
+}
+packet Logon {
+}
+packet Ack {
+}
+packet Logout {
+    repeat InSym87 {
+        InClordid94 {
+            string clOrdID,
+        },
+        string Px,
+        i16 Qty,
+        repeat InCount71 {
+            repeat Cancel,
+            uint16 Tail,
+            char[2] x,
+            repeat string Ref,
+        },
+        Cancel,
+    },
+}
+root packet Order {
+    repeat string tag7,
+    @leftPad(' ') char[3] Px,
+    u8 Qty,
+    match Qty as Body {
+        [28, 62] : Logon,
+        148 : Ack,
+        88 : Party,
+        184 : Cancel,
+    },
+    u16 Note @calculatedFrom(""CRC32""),
+}
+")).
+Eval vm_compute in ("<<<M117>>>" ++ check (runes_of_ascii "// a // b
+packet	u128  {
+    repeat chars	{i64 u8x
+`
+`// a // b
+, // c
+_x
+@lengthOf(  falsey
+    )
+,
+    Logon
+`" ++ [28040; 24687; 31867; 22411]%N ++ runes_of_ascii "` ,repeat char[]
+trueish `tab	here` ,}
+    , } root packet T { match Packet
+as
+trueish {
+""packet"" : charz
+    ,
+    [4294967296 , ""1"" ] : A , 7 : x
+    // " ++ [27880; 37322]%N ++ runes_of_ascii "
+    , [
+    // a // b
+    7 ,""a	b""
+    ]
+:	u128 255 :
+As
+    3:
+Packet,} ,
+//	t
+// trailing space 
+pack
+`a\` , @calculatedFrom( """ ++ [233]%N ++ runes_of_ascii "t" ++ [233]%N ++ runes_of_ascii """ //	t
+)
+    rootA matchKey  ,
+char[ 65535]/// triple
+leftPad @lengthOf( roots
+    //
+    ) , repeat MetaDataX { u64
+    a1 @calculatedFrom(""x y"" ) `doc`  ,//	t
+uint8 falsey
+,
+match BodyLength as A
+{  [ ""\" ++ [233]%N ++ runes_of_ascii """,255 ,"""" ,
+    ""it's"" ] :	Foo ,
+3 : u128}	, } ,	}
+")).
+Eval vm_compute in ("<<<M206>>>" ++ check (runes_of_ascii "//x
+root
+    // " ++ [128512]%N ++ runes_of_ascii " emoji
+    packet
+// `tick` ""quote"" 'q'
+/// triple
+float{options1 A
+,@tag(
+42 )
+    u8x{ tag //x
+@calculatedFrom(	""\" ++ [233]%N ++ runes_of_ascii """) // packet A { u8 x, }
+`tab	here` ,
+    }
+    , int16 asx ,
+    @lengthOf( o
+    )
+@rightPad( ) repeat int
+/// triple
+/// triple
+Logon,@calculatedFrom(""// no comment"" )  @leftPad('\x00')
+    @rightPad('0'	)	zchar[ 65535 //x
+] o `
+`
+    ,
+    repeat As{ //x
+repeat uint16 o ,repeat
+char[ // trailing space 
+1
+    ]o ,
+u128
+metadata	, repeat char[7	] Header ,
+    } , @tag( 0123456789
+    ) a1 tag
+    , float32 asx ,
+    repeat // packet A { u8 x, }
+len
+``
+    ,}
+")).
+Eval vm_compute in ("<<<M1842>>>" ++ check (runes_of_ascii "options
+{
+ArrayPrefixLenType
+    =u64  ;FixedStringPadFromLeft
+    = 
+true
+	; FixedStringPadChar =
+
+    '0'
+
+    ;}
+
+    packet
+Quote
+	{ }packet 
+Ack
+
+    {
+	repeat 
+InNote66
+
+{
+    u8
+
+    pad0 
+,}
+	,
+	}
+
+packet
+
+Reject
+{ }
+root packet
+Order {
+
+Quote ,repeat
+
+    Reject ,  string venue
+	,
+string
+
+    seqNo,
+
+    uint32
+	Ref
+,
+
+u16
+lastPx,
+
+u32
+clOrdID	@lengthOf(
+Body
+)
+
+, match lastPx
+    as Body
+
+    { 190
+
+:
+
+    Reject
+
+, 
+186:
+    Quote , 
+22
+    :
+	Ack
+
+,
+
+}
+    ,	u16
+	Flags @calculatedFrom( ""CR\
+C32"" )
+
+    , }")).
+Eval vm_compute in ("<<<M294>>>" ++ check (runes_of_ascii "options { rootA = 4294967296 ; falsey = ""a\""b""
+;
+As =
+// @lengthOf(
+/// triple
+""""
+;packetx
+    = ""packet"" i8i8 =true ;
+} // `tick` ""quote"" 'q'
+packet x  { repeat zchar
+rootA , char[]
+    pack  `// not a comment`
+,@tag( 00 )
+@tag( 0123456789)
+u @calculatedFrom( ""packet"" )`u8 x,` , Header{
+    zchar[ 00
+    ] body
+,
+    a1	@calculatedFrom( // " ++ [128512]%N ++ runes_of_ascii " emoji
+""it's"" )
+`" ++ [233]%N ++ runes_of_ascii "`, }, } // " ++ [27880; 37322]%N ++ runes_of_ascii "
+MetaData
+    A // a // b
+{zchar /// triple
+matchKey
+    `` , int64 metadata ,char[] _x //	t
+, }
+")).
+Eval vm_compute in ("<<<M1893>>>" ++ check (runes_of_ascii "options {
+    rootA = 4294967296;
+    falsey = ""a\""b"";
+    As = """";
+    packetx = ""packet""
+    i8i8 = true;
+}// `tick` ""quote"" 'q'
+
+packet x {
+    repeat zchar rootA,
+    char[] pack `// not a comment`,
+    @tag(00)
+    @tag(0123456789)
+    u @calculatedFrom(""packet"") `u8 x,`,
+    Header {
+        zchar[00] body,
+        a1 @calculatedFrom(""it's"") `" ++ [233]%N ++ runes_of_ascii "`,
+    },
+}// " ++ [27880; 37322]%N ++ runes_of_ascii "
+
+MetaData A {
+    zchar matchKey ``,
+    int64 metadata,
+    char[] _x,
+}")).
+Eval vm_compute in ("<<<M1236>>>" ++ check (runes_of_ascii "// top
+options // c0a
+  // c0b
+{ f32a
+    // c2
+= // c3
+0 } // c5
+packet trueish // c7a
+  // c7b
+{ // c8
+}
+    // c9
+MetaData _x // c11
+{ char[ // c13a
+  // c13b
+0123456789 // c14
+] // c15a
+  // c15b
+zchar
+    // c16
+, // c17a
+  // c17b
+string // c18
+crc ,
+    // c20
+char[
+    // c21
+1 ] // c23a
+  // c23b
+options1
+    // c24
+, uint8 // c26a
+  // c26b
+repeatCount
+    // c27
+, // c28
+} // c29
+")).
+Eval vm_compute in ("<<<M75>>>" ++ check (runes_of_ascii "packet zchar { @calculatedFrom( ""`tick`""
+) uint32
+    falsey,} MetaData packetx {
+string
+//
+// @lengthOf(
+msg_type `u8 x,`, }packet i8i8 {zchar@lengthOf(
+uint8x
+    ) ,
+    }packet As{ zchar[ 4294967296
+    // " ++ [27880; 37322]%N ++ runes_of_ascii "
+    ] T	@calculatedFrom( ""abc"" ) , @tag(007 )
+    repeat
+    i16
+// " ++ [27880; 37322]%N ++ runes_of_ascii "
+// packet A { u8 x, }
+u8x `say ""hi""`, @lengthOf( u )
+repeat uint16 u128 , }")).
+Eval vm_compute in ("<<<M1587>>>" ++ check (runes_of_ascii "options {
+    LittleEndian = true;
+    StringPrefixLenType = u16;
+    FixedStringPadChar = ' ';
 }
 
 packet Logon {
     @leftPad('0')
-    char[10] UserName `" ++ [29992; 25143; 21517]%N ++ runes_of_ascii "`,
-    string Password `" ++ [23494; 30721]%N ++ runes_of_ascii "`,
-    uint64 ClientId `" ++ [23458; 25143; 31471]%N ++ runes_of_ascii "ID`,
-    u16 HeartbeatInterval `" ++ [24515; 36339; 38388; 38548]%N ++ runes_of_ascii "`,
+    char[10] tag7,
 }
 
-packet Logout {
-    @rightPad('0')
-    char[10] UserName `" ++ [29992; 25143; 21517]%N ++ runes_of_ascii "`,
-    uint64 ClientId `" ++ [23458; 25143; 31471]%N ++ runes_of_ascii "ID`,
-}
-
-packet Heartbeat {
-}
-
-packet RiskControlRequest {
-    string UniqueOrderId `" ++ [21807; 19968; 35746; 21333; 21495]%N ++ runes_of_ascii "`,
-    char[16] ClOrdID `" ++ [23458; 25143; 35746; 21333; 21495]%N ++ runes_of_ascii "`,
-    char[3] MarketID `" ++ [24066; 22330]%N ++ runes_of_ascii "id`,
-    char[12] SecurityID `" ++ [35777; 21048; 20195; 30721]%N ++ runes_of_ascii "`,
-    char Side `" ++ [20080; 21334; 26041; 21521]%N ++ runes_of_ascii "`,
-    char OrderType `" ++ [35746; 21333; 31867; 22411]%N ++ runes_of_ascii "`,
-    u64 Price `" ++ [20215; 26684]%N ++ runes_of_ascii "`,
-    u32 Qty `" ++ [25968; 37327]%N ++ runes_of_ascii "`,
-    repeat string ExtraInfo `" ++ [38468; 21152; 20449; 24687]%N ++ runes_of_ascii "`,
-    repeat SubOrder {
-        char[16] ClOrdID `" ++ [23376; 35746; 21333; 21495]%N ++ runes_of_ascii "`,
-        u64 Price `" ++ [23376; 35746; 21333; 20215; 26684]%N ++ runes_of_ascii "`,
-        u32 Qty `" ++ [23376; 35746; 21333; 25968; 37327]%N ++ runes_of_ascii "`,
+root packet Ack {
+    int32 Px,
+    uint16 count,
+    string Qty,
+    string OrderId,
+    string Flags,
+    u8 x,
+    match x as Body {
+        [58, 169] : Logon,
     },
-}
-
-packet RiskControlResponse {
-    string UniqueOrderId `" ++ [21807; 19968; 35746; 21333; 21495]%N ++ runes_of_ascii "`,
-    i32 Status `" ++ [29366; 24577]%N ++ runes_of_ascii "`,
-    string Msg `" ++ [32467; 26524; 20449; 24687]%N ++ runes_of_ascii "`,
-    repeat Detail,
-}
-
-packet Detail {
-    string RuleName `" ++ [35268; 21017; 21517; 31216]%N ++ runes_of_ascii "`,
-    u16 Code `" ++ [21407; 22240; 20195; 30721]%N ++ runes_of_ascii "`,
 }")).
-Eval vm_compute in ("<<<M128>>>" ++ check (runes_of_ascii "root
-packet // " ++ [27880; 37322]%N ++ runes_of_ascii "
-crc
-    {	@lengthOf(	As
-)@calculatedFrom(""\" ++ [233]%N ++ runes_of_ascii """
-    ) zchar[ 4294967296 ]MetaDataX `doc` ,/// triple
-rootA @calculatedFrom( ""it's"" )	,@tag( 65535
-    ) @tag( // c
-7 )@tag( 00
-//
-// c
-) len @lengthOf( A ) `two words` ,
-// trailing space 
-// " ++ [128512]%N ++ runes_of_ascii " emoji
-string	rootA@lengthOf( pack
-// trailing space 
-//	t
-) ,
-// " ++ [128512]%N ++ runes_of_ascii " emoji
-// trailing space 
-repeat zchar ,
-@calculatedFrom( ""abc"" )@leftPad ('\x00' ) @rightPad
-( )match x_y_z
-    as Z9_{
-""it's""
-    :
-Logon//x
-, ""x y"" : Packet,""abc""
-: trueish 4294967296 // @lengthOf(
-:
-    repeatCount """ ++ [128512]%N ++ runes_of_ascii """:  x_y_z
-} , char[ 10 // @lengthOf(
-]
-    stringy	`it's`
-, @leftPad (
-'\x00' )
-rootA @lengthOf(  i64_  )
-    , } MetaData falsey {
-Packet repeatCount `tab	here` ,
-}MetaData string_ {
-    float64 roots `line1
-line2` , char
-As //
-`
-` , zchar[ 65535 ]falsey`a\` ,A
-    T , _x metadata, } packet
-_x // packet A { u8 x, }
-{zchar[255 ] string_@lengthOf(
-//	t
-// @lengthOf(
-u128 ) `{ , }`	,
-}root packet Packet
-    {repeat // " ++ [128512]%N ++ runes_of_ascii " emoji
-lengthOf , }")).
-Eval vm_compute in ("<<<M107>>>" ++ check (runes_of_ascii "packet falsey { i64_ ,	charz  {
-match Packet  as Pad { ""\n"" :Packet
-    , ""// no comment"" // " ++ [128512]%N ++ runes_of_ascii " emoji
-:
-f32a// `tick` ""quote"" 'q'
-, [
-    /// triple
-    3  ,4294967296,
-    10 ,//
-7 , 10	]
-: u
-, // trailing space 
-""`tick`"": u8x
-,
-[ 7 , ""it's"" ]:Packet, 0 : len
-    //
-    , }
-    , }, /// triple
-@lengthOf(	f32a) char[ 3 ]options1
-    @lengthOf(
-Pad)
-, zchar[ 0123456789 ]// trailing space 
-T ``
-,
-} packet
-Pad
-{
-    // c
-    o roots `{ , }` // " ++ [128512]%N ++ runes_of_ascii " emoji
-, }packet f32a {
-_x//
-@calculatedFrom(	""x y"") //x
-,@tag( 65535
-) //	t
-char pack @lengthOf( zchar  ) ,repeat //
-int64 falsey  ,repeat len {match A
-    as rootA {[ 42,  ""\n"" ]:
-Z9_ , }
-,repeat i16
-A , repeat zchar[ 65535 ] tag `
-` ,
-f64 float
-    @lengthOf( f32a ) ``  ,
-// `tick` ""quote"" 'q'
-// packet A { u8 x, }
-} , x
-    u8x
-, @tag(  42	) repeat As Packet	, @lengthOf( Pad
-    )repeat
-    f64 rootA ,// @lengthOf(
-}")).
-Eval vm_compute in ("<<<M209>>>" ++ check (runes_of_ascii "packet calculatedFrom { // a // b
-string charz
-`two words`
-//	t
+Eval vm_compute in ("<<<M370>>>" ++ check (runes_of_ascii "  root packet trueish // " ++ [128512]%N ++ runes_of_ascii " emoji
+{ char[] MetaDataX , @leftPad (
+    // trailing space 
+    '0' )match float as
 //x
-, } packet stringy {
-@lengthOf(msg_type
-)	crc
-    // " ++ [128512]%N ++ runes_of_ascii " emoji
-    , @leftPad
-(	'0')crc @lengthOf(
-u128 //	t
-) ,@leftPad(
-    ' '
-)match
-x_y_z as
-rootA { [// @lengthOf(
-3 ,255 ] : int
-    ""1"": o ,// a // b
-10:tag
-, // c
-10// " ++ [128512]%N ++ runes_of_ascii " emoji
-: Header
-    ,3 :
-a1,""" ++ [128512]%N ++ runes_of_ascii """ :
-packetx
-    , }
-// packet A { u8 x, }
-// packet A { u8 x, }
-, match
-// " ++ [27880; 37322]%N ++ runes_of_ascii "
-// a // b
-o as x//x
-{  ""a	b"" : u8x ,} ,  @rightPad () repeat
-u packetx
-,
-    T // " ++ [27880; 37322]%N ++ runes_of_ascii "
-,repeat
-Logon ,	T{repeat
-x_y_z , // a // b
-i8 crc
-`two words` ,
-char[] calculatedFrom
-    @calculatedFrom(""x y""
-) , } , roots calculatedFrom,
-@lengthOf(
-asx)  repeat x_y_z{ T
-matchKey, } , }
-options { float
-=char[1 ]
-    ;
-    msg_type // c
-=i8 x =
-//
-// `tick` ""quote"" 'q'
-zchar[ 7] ; f32a =""\n""}
-")).
-Eval vm_compute in ("<<<M1901>>>" ++ check (runes_of_ascii "packet charz {
-    //	t
-    repeat i64_,
-    trueish {
-        repeat _x,
-        repeatCount,
-        repeat u16 matchKey `
-                `,
-        // " ++ [128512]%N ++ runes_of_ascii " emoji
-        // a // b
-        matchKey @calculatedFrom(""a\""b"") `it's`,
-    },
-    @tag(007)
-    @calculatedFrom(""a\\"")
-    @tag(3)
-    f32 f32a @lengthOf(asx) `crlf
-        line`,
-    repeat i8 string_,
-    @lengthOf(Logon)
-    @lengthOf(x_y_z)
-    @lengthOf(zchar)
-    repeat char[65535] Foo `" ++ [233]%N ++ runes_of_ascii "`,
-    @calculatedFrom(""abc"")
-    trueish @lengthOf(A),
-    char[0] float,
-    Packet @calculatedFrom(""a	b""),
-}
-
-MetaData Pad {
-    char[00] leftPad,
-    u8 rootA `
-        `,
-    //
-    // " ++ [128512]%N ++ runes_of_ascii " emoji
-    int32 a1 `say ""hi""`,
-    Z9_ float,//x
-    i32 Pad,
-}")).
-Eval vm_compute in ("<<<M154>>>" ++ check (runes_of_ascii "packet BodyLength
-    // a // b
-    {@rightPad (
-'\x00' )
-u8x/// triple
-,  @tag(  007
-) @calculatedFrom( ""packet""	) repeat  uint8x x_y_z, }
-    MetaData A {
-    // packet A { u8 x, }
-    Z9_ // a // b
-f32a ,
-    zchar[ 255// a // b
-]
-    msg_type`say ""hi""` ,char[ 1	]Logon  `tab	here` ,//
-}
-packet uint8x {  @calculatedFrom(
-""" ++ [28040; 24687]%N ++ runes_of_ascii """ )@tag(// `tick` ""quote"" 'q'
-65535)	u32 int
-@lengthOf( u8x )
-`say ""hi""`
-,	@leftPad ( ' ') stringy //
-{
-    string_ A ,
-    char[ 4294967296
-] i8i8 `" ++ [233]%N ++ runes_of_ascii "`	, char[]  Logon
-,
-string
-x_y_z@lengthOf(	Packet ),
-} , zchar[	4294967296 ]
-int	`{ , }` , }
 // trailing space 
-// " ++ [27880; 37322]%N ++ runes_of_ascii "
-packet u8x
-    { }
-// a // b
+crc { 0123456789 :// " ++ [27880; 37322]%N ++ runes_of_ascii "
+chars	, ""{,}"" : i8i8,
+}
+, f32a
+    // " ++ [128512]%N ++ runes_of_ascii " emoji
+    f32a `tab	here` ,// " ++ [128512]%N ++ runes_of_ascii " emoji
+@lengthOf( Foo )
+    Packet@calculatedFrom( """ ++ [28040; 24687]%N ++ runes_of_ascii """ ) `it's` , }
 ")).
-Eval vm_compute in ("<<<M1751>>>" ++ check (runes_of_ascii "  options
+Eval vm_compute in ("<<<M1421>>>" ++ check (runes_of_ascii "root  // trailing space 
+packet int
+{ f32a@calculatedFrom( ""packet""
+) 
+`
+`  ,
 
-    { LittleEndian= false
-;  ArrayPrefixLenType =  u8;
-	FixedStringPadFromLeft
+    }  options {
+rootA 
 
-    = 
-true 
-;
-	FixedStringPadChar=	'0'
-    ; }
-	packet
-Heartbeat	{
+    // @lengthOf(
+	=
+	""\" ++ [233]%N ++ runes_of_ascii """	;}
+packet i8i8
 
-    string lastPx
-, uint8
-Qty
-	,
-    i64	Acct	,	char[
-4 ]
-Ref
-    , }packet
-Fill 
-{uint8 Ref ,
+{ 
 
-Heartbeat
+// trailing space 
+      uint8
+	uint8x 
+@lengthOf(	string_ ) 	 //	t
 
-,	f32  OrderId
-,
-	repeat 
-f32 
-x ,} 
-root
-	packet
-Order
-	{	zchar[
-2 
-]	OrderId
-
-,
-	zchar[2
-
-    ]
-
-Acct
-,zchar[	1	]
-
-Note  , zchar[	9
-]
-Qty
-,  string
-
-price ,string
-	tag7 ,
-
-u32
-
-    x , 
-match x as	Body	{	123
-:
-	Fill  , 112
-	:
-Heartbeat
-,}
-, 
-u32 
-seqNo
-	@calculatedFrom( ""CRC32""
-	)
-    , }
-")).
-Eval vm_compute in ("<<<M1324>>>" ++ check (runes_of_ascii "// top
-root
-    // c0
-packet Frame
-    // c2
-{ u8
-    // c4
-K
-    // c5
-,
-    // c6
+	,i32 
+tag  //	t
+@lengthOf(
 Logon
-    // c7
-first
-    // c8
-, // c9
-match // c10
-K // c11a
-  // c11b
-as
-    // c12
-Body // c13a
-  // c13b
-{
-    // c14
-1 : Logon
-    // c17
-, // c18a
-  // c18b
-2
-    // c19
-: // c20a
-  // c20b
-Logout ,
-    // c22
-}
-    // c23
-, // c24a
-  // c24b
-} // c25a
-  // c25b
-packet Logon { string // c29a
-  // c29b
-user // c30
-, // c31
-} // c32
-packet
-    // c33
-Logout
-    // c34
-{ u16 reason , // c38a
-  // c38b
-} // c39a
-  // c39b
-")).
-Eval vm_compute in ("<<<M1578>>>" ++ check (runes_of_ascii "packet Logon {
-    repeatCount {
-        BodyLength `crlf
-        line`,
-    },
-    zchar a1 `u8 x,`,
-    match Foo as Foo {
-        ""\n"" : i8i8,
-        [""abc"", ""CRC32""] : crc,
-        [
-            3, ""x y"", 42, ""`tick`"", 1,
-            ""a\""b"", ""CRC32"", 255
-        ] : repeatCount,
-        [
-            1, 007, ""\n"", 007, 7,
-            ""// no comment"", 255
-        ] : uint8x,
-        00 : f32a,
-    },
-    // a // b
-    uint16 Pad @lengthOf(uint8x) `doc`,
-}")).
-Eval vm_compute in ("<<<M1193>>>" ++ check (runes_of_ascii "// top
-MetaData
-    // c0
-uint8x // c1
-{ char[]
-    // c3
-f32a // c4a
-  // c4b
-`// not a comment`
-    // c5
-, // c6a
-  // c6b
-float32 // c7
-roots
-    // c8
-, // c9
-char[ // c10a
-  // c10b
-7 // c11
-] // c12
-u8x // c13
-, // c14a
-  // c14b
-zchar[
-    // c15
-10
-    // c16
-] // c17
-f32a // c18
-, // c19a
-  // c19b
-u64
-    // c20
-pack // c21a
-  // c21b
-, u16
-    // c23
-pack // c24a
-  // c24b
-,
-    // c25
-}
-    // c26
-")).
-Eval vm_compute in ("<<<M1471>>>" ++ check (runes_of_ascii "packet crc {
-    match trueish as len {
-        42 : uint8x,
-        // " ++ [128512]%N ++ runes_of_ascii " emoji
-        ""1"" : asx,
-        3 : body,
-        [""1"", 0123456789] : u,
-        ""packet"" : o,
-    },
-}
 
-MetaData tag {
-    string o `line1
-        line2`,
-    char[] Header `{ , }`,
-    uint8x Z9_,
-}
-
-MetaData tag {
-    i8 len,
-}
-
-options {
-    // `tick` ""quote"" 'q'
-    /// triple
-    x = 10;
-}")).
-Eval vm_compute in ("<<<M1688>>>" ++ check (runes_of_ascii "
-packet
-A
-{
-u8
-    a
-
-    ,} packet
-    B { 
-u16
-
-    b
-	,	} 
-packet	C 
-{u32 c
-    ,
-    } root 
-packet	M	{
-u16 
-Kc	,  u16
-	Kb , u16 Ka
-,	match
-    Kc
-
-    as
-    X
-{
-    9
-
-    :  A , 10: B
-,  } ,  match
-Kb 
-as
-
-    Y
-
-    {	2
-:
-	C
-
-,1
-
-    :
-A,}	, match
-
-Ka
-as
-	Z { 
-1 :B
-,}
-
-    ,	A  ,  B	,
-C
-    ,
-} ")).
-Eval vm_compute in ("<<<M1923>>>" ++ check (runes_of_ascii "packet zchar {
-    @lengthOf(a1)
-    i64_ @lengthOf(Header) `" ++ [28040; 24687; 31867; 22411]%N ++ runes_of_ascii "`,
-    charz `" ++ [233]%N ++ runes_of_ascii "`,
-    char[007] i64_,
-    tag {
-        u16 matchKey,
-        match Pad as lengthOf {
-            [""CRC32"", ""abc""] : Packet,
-        },
-    },
-}
-
-MetaData body {
-    char[10] u128 `doc`,
-    /// triple
-    //x
-}//x")).
-Eval vm_compute in ("<<<M1250>>>" ++ check (runes_of_ascii "// top
-packet
-    // c0
-Inner
-    // c1
-{ // c2a
-  // c2b
-u8
-    // c3
-a // c4a
-  // c4b
-, }
-    // c6
-root // c7
-packet // c8
-P // c9a
-  // c9b
-{
-    // c10
-Inner // c11a
-  // c11b
-ref_obj
-    // c12
-, // c13a
-  // c13b
-u8 x ,
-    // c16
-} // c17a
-  // c17b
-")).
-Eval vm_compute in ("<<<M1928>>>" ++ check (runes_of_ascii "packet
-roots {
-
-    @calculatedFrom(
-
-    ""a\\"" 
 )
-@lengthOf( packetx
-) match repeatCount
-	as  body  {	007
-:lengthOf 
-, 00:  // `tick` ""quote"" 'q'
-zchar
-    ,
-} ,
-	char[]
-    chars `say ""hi""` ,
-} MetaData
-packetx
-{  }
-
-")).
-Eval vm_compute in ("<<<M1501>>>" ++ check (runes_of_ascii "packet roots {
-    @calculatedFrom(""a\\"")
-    @lengthOf(packetx)
-    match repeatCount as body {
-        007 : lengthOf,
-        00 : zchar,
-    },
-    char[] chars `say ""hi""`,
-}
-
-MetaData packetx {
-}")).
-Eval vm_compute in ("<<<M1786>>>" ++ check (runes_of_ascii "
-
-  MetaData leftPad
-
-    {chars
-	MetaDataX
-    ,
-	} packet
-repeatCount
-{
-
-    char[  255	]
-
-    uint8x `" ++ [233]%N ++ runes_of_ascii "` , }MetaData
-
-    pack
-	{
-
-As 
-        // c
-
-  Foo , }
-")).
-Eval vm_compute in ("<<<M355>>>" ++ check (runes_of_ascii "options  { As = true
-    MetaDataX =true	}	packet A { repeat calculatedFrom `say ""hi""`
-    ,} MetaData crc { u crc ,
-    uint32 body , i16 stringy
-`u8 x,`
 , }
 ")).
-Eval vm_compute in ("<<<M1608>>>" ++ check (runes_of_ascii "MetaData 
-    // c
-	  leftPad
+Eval vm_compute in ("<<<M203>>>" ++ check (runes_of_ascii "root packet Pad {match //	t
+falsey as
+    A{
+255:// `tick` ""quote"" 'q'
+T, } , int64
+Header	`tab	here`
+, repeat i64_ `line1
+line2`, @tag( 7 )
+    float32	zchar
+    @calculatedFrom( ""\" ++ [233]%N ++ runes_of_ascii """
+    )
+//
+// @lengthOf(
+,u64 Header ,
+    }
+")).
+Eval vm_compute in ("<<<M1660>>>" ++ check (runes_of_ascii "packet f32a {
+    @rightPad('0')
+    @lengthOf(BodyLength)
+    uint8 Foo ``,
+    //x
+    char[] options1 @calculatedFrom(""it's""),
+    @tag(255)
+    uint64 Header @calculatedFrom(""abc"") `
+        `,
+}")).
+Eval vm_compute in ("<<<M1743>>>" ++ check (runes_of_ascii "
 
-{
-    chars	MetaDataX 
-,} packet repeatCount{
+  root
+	packet T{ zchar[// a // b
+0123456789
+]  // c
+uint8x	,
+	} 
+root	packet
 
-char[ 255 ]uint8x
-    `" ++ [233]%N ++ runes_of_ascii "`
-,	}
+metadata
+{  @rightPad
+(
+)x_y_z	@lengthOf( 
+stringy 
+) 
+      // `tick` ""quote"" 'q'
+// c
+		,}
 
-    MetaData
+")).
+Eval vm_compute in ("<<<M1914>>>" ++ check (runes_of_ascii "
+MetaData
+leftPad
+
+    {
+	chars
+
+MetaDataX
+, } packet
+repeatCount{	char[ 255
+    ]  uint8x
+
+`" ++ [233]%N ++ runes_of_ascii "` , }// c
+  	MetaData
     pack
-	{
-	As
 
-Foo ,
-    }")).
-Eval vm_compute in ("<<<M540>>>" ++ check (runes_of_ascii "packet uint8x
-{ match pack
-    as msg_type	{
-    0123456789 :	float
-}
-,
-} packet //	t
-a1
-    { } options " ++ [65279]%N ++ runes_of_ascii " {packetx
-    = '\x00'	; u128= ""a	b""  ; }
-")).
-Eval vm_compute in ("<<<M437>>>" ++ check (runes_of_ascii "packet uint8x
-{ match pack
-    as msg_type	{
-    0123456789 float	:
-}
-,
-} packet //	t
-a1
-    { } options {packetx
-    = '\x00'	; u128= ""a	b""  ; }
-")).
-Eval vm_compute in ("<<<M468>>>" ++ check (runes_of_ascii "packet uint8x
-{ match pack
-    as msg_type	{
-    0123456789 :	float
-}
-,
-} packet //	t
-,
-    { } options {packetx
-    = '\x00'	; u128= ""a	b""  ; }
-")).
-Eval vm_compute in ("<<<M533>>>" ++ check (runes_of_ascii "packet uint8x
-{ match pack
-    as msg_type	{
-    0123456789 :	float
-}
-,
-} packet //	t
-a1
-    { } options {packetx
-    = '\x00'	; u128= ""a	b""  ;")).
-Eval vm_compute in ("<<<M711>>>" ++ check (runes_of_ascii "// @lengthOf(
-packet i8i8 { u128 o , }
-options { MetaDataX = true;
-    BodyLength =""packet"" x_y_z= 007
-""crc //x
-= ""abc"" ;
-    msg_type =
-i16 }")).
-Eval vm_compute in ("<<<M709>>>" ++ check (runes_of_ascii "// @lengthOf(
-packet i8i8 { u128 o , }
-options { MetaDataX = true;
-    BodyLength =""packet"" x_y_z= 007
-crc //x
-= ""abc"" 
-    msg_type =
-i16 }")).
-Eval vm_compute in ("<<<M716>>>" ++ check (runes_of_ascii "// @lengthOf(
-packet i8i8 { u128 o , }
- { MetaDataX = true;
-    BodyLength =""packet"" x_y_z= 007
-crc //x
-= ""abc"" ;
-    msg_type =
-i16 }")).
-Eval vm_compute in ("<<<M1761>>>" ++ check (runes_of_ascii "packet A {
-    match k as n {
-        [
-            ""a"", ""bb"", 007, ""d"", ""e"",
-            66
-        ] : B,
-        2 : C,
-    },
-}")).
-Eval vm_compute in ("<<<M1533>>>" ++ check (runes_of_ascii "options{
+    {
 
-_x =
-""`tick`"" 
-; matchKey	=
-
-    ""it's""
-
-;
-
-options1
-
-    =
-
-    u16	;
-	stringy=
-    true
-	    // c
-
-	}
-
-")).
-Eval vm_compute in ("<<<M1155>>>" ++ check (runes_of_ascii "MetaData leftPad { chars MetaDataX , } // c
-packet repeatCount { char[ 255 ] uint8x `" ++ [233]%N ++ runes_of_ascii "` , } MetaData pack { As Foo , }")).
-Eval vm_compute in ("<<<M1187>>>" ++ check (runes_of_ascii "MetaData leftPad { chars MetaDataX , } packet repeatCount { char[ 255 ] uint8x `" ++ [233]%N ++ runes_of_ascii "` , } MetaData pack { As Foo , // c
-}")).
-Eval vm_compute in ("<<<M1602>>>" ++ check (runes_of_ascii "packet Header {
-    repeat char[0123456789] BodyLength `" ++ [28040; 24687; 31867; 22411]%N ++ runes_of_ascii "`,
-    zchar[3] chars,// trailing space 
-    A,
-}//")).
-Eval vm_compute in ("<<<M49>>>" ++ check (runes_of_ascii "options  { f32a = true;  metadata =""CRC32"" ;
-body // " ++ [27880; 37322]%N ++ runes_of_ascii "
-=
-char ; A =
-float64	;
-} MetaData
-    rootA { }")).
-Eval vm_compute in ("<<<M671>>>" ++ check (runes_of_ascii "// @lengthOf(
-packet i8i8 { u128 o , }
-options { MetaDataX = true;
-    BodyLength =""packet"" x_y_z= 0")).
-Eval vm_compute in ("<<<M883>>>" ++ check (runes_of_ascii "packet A {
-  match k as n {
-    [1, ""bb"", 007, ""d"", 5, ""f"", 7, ""h"", 9, ""j""] : B
-    2 : C
-  },
-}")).
-Eval vm_compute in ("<<<M578>>>" ++ check (runes_of_ascii "
-packet
-    asx {match u128 as as lengthOf
-{
-//	t
-// `tick` ""quote"" 'q'
-255 : x ,
-    } ,	}")).
-Eval vm_compute in ("<<<M633>>>" ++ check (runes_of_ascii "
-packet
-    asx {match u128 as `lengthOf
-{
-//	t
-// `tick` ""quote"" 'q'
-255 : x ,
-    } ,	}")).
-Eval vm_compute in ("<<<M562>>>" ++ check (runes_of_ascii "
-packet
-    asx match u128 as lengthOf
-{
-//	t
-// `tick` ""quote"" 'q'
-255 : x ,
-    } ,	}")).
-Eval vm_compute in ("<<<M570>>>" ++ check (runes_of_ascii "
-packet
-    asx {{ u128 as lengthOf
-{
-//	t
-// `tick` ""quote"" 'q'
-255 : x ,
-    } ,	}")).
-Eval vm_compute in ("<<<M832>>>" ++ check (runes_of_ascii "packet A {
-  match k as n {
-    [""a"", 22, ""c c"", 4, ""e"", 66] : B,
-    2 : C
-  },
-}")).
-Eval vm_compute in ("<<<M1251>>>" ++ check (runes_of_ascii "packet
-Inner
-	{u8	a 
-,
-} root
-	packet 
-P
-{ Inner	ref_obj,  u8	x
-,
+    As Foo,
 
     }
-
 ")).
-Eval vm_compute in ("<<<M1862>>>" ++ check (runes_of_ascii "packet A {
-    @leftPad()
-    char[4] x,
-    @rightPad()
-    zchar[2] y,
-}")).
-Eval vm_compute in ("<<<M877>>>" ++ check (runes_of_ascii "packet A { Inner { match k as n { [1,22,007,4,5,66,7,8,9] : B, }, }, }")).
-Eval vm_compute in ("<<<M653>>>" ++ check (runes_of_ascii "// @lengthOf(
+Eval vm_compute in ("<<<M511>>>" ++ check (runes_of_ascii "packet uint8x
+{ match pack
+    as msg_type	{
+    0123456789 :	float
+}
+,
+} packet //	t
+a1
+    { } options {packetx
+    = '\x00'	; u128 u128= ""a	b""  ; }
+")).
+Eval vm_compute in ("<<<M506>>>" ++ check (runes_of_ascii "packet uint8x
+{ match pack
+    as msg_type	{
+    0123456789 :	float
+}
+,
+} packet //	t
+a1
+    { } options {packetx
+    = '\x00'	; ; u128= ""a	b""  ; }
+")).
+Eval vm_compute in ("<<<M422>>>" ++ check (runes_of_ascii "packet uint8x
+{ match pack
+    as {	msg_type
+    0123456789 :	float
+}
+,
+} packet //	t
+a1
+    { } options {packetx
+    = '\x00'	; u128= ""a	b""  ; }
+")).
+Eval vm_compute in ("<<<M450>>>" ++ check (runes_of_ascii "packet uint8x
+{ match pack
+    as msg_type	{
+    0123456789 :	float
+}
+
+} packet //	t
+a1
+    { } options {packetx
+    = '\x00'	; u128= ""a	b""  ; }
+")).
+Eval vm_compute in ("<<<M1772>>>" ++ check (runes_of_ascii "MetaData leftPad
+	{	chars  MetaDataX	,  } packet 
+repeatCount 
+{ 
+char[ 255]
+	uint8x
+`" ++ [233]%N ++ runes_of_ascii "`
+
+    ,
+
+    // c
+}
+MetaData
+
+pack
+{ As 
+Foo
+
+    ,}
+")).
+Eval vm_compute in ("<<<M660>>>" ++ check (runes_of_ascii "/""/ @lengthOf(
 packet i8i8 { u128 o , }
-options { MetaDataX = true")).
-Eval vm_compute in ("<<<M314>>>" ++ check (runes_of_ascii "root packet string_{
-char[] matchKey ,
-} packet x {
-    } 	 ")).
-Eval vm_compute in ("<<<M767>>>" ++ check (runes_of_ascii "@rightPad char[] string u16 @tag( @lengthOf( as packet ,")).
-Eval vm_compute in ("<<<M1200>>>" ++ check (runes_of_ascii "packet
-// c
-body { i32 f32a `{ , }` , } options { }")).
-Eval vm_compute in ("<<<M375>>>" ++ check (runes_of_ascii "options {Foo = '0'	;	Pad = '0';	crc ='0' ; //	t
+options { MetaDataX = true;
+    BodyLength =""packet"" x_y_z= 007
+crc //x
+= ""abc"" ;
+    msg_type =
+i16 }")).
+Eval vm_compute in ("<<<M689>>>" ++ check (runes_of_ascii "// @lengthOf(
+packet i8i8 { u128 o , }
+options { MetaDataX  true;
+    BodyLength =""packet"" x_y_z= 007
+crc //x
+= ""abc"" ;
+    msg_type =
+i16 }")).
+Eval vm_compute in ("<<<M1634>>>" ++ check (runes_of_ascii "packet A {
+    Inner {
+        u8 x `
+                `,
+        Deep {
+            u8 y `
+                        `,
+        },
+    },
 }")).
-Eval vm_compute in ("<<<M763>>>" ++ check (runes_of_ascii "@calculatedFrom( true ; MetaData """ ++ [233]%N ++ runes_of_ascii "t" ++ [233]%N ++ runes_of_ascii """ match")).
-Eval vm_compute in ("<<<M1854>>>" ++ check (runes_of_ascii "root packet A {
-    u8 x `
-        x`,
-}")).
-Eval vm_compute in ("<<<M54>>>" ++ check (runes_of_ascii "options
-{ T= '0' ;A= u8 ;
-    } 	 ")).
-Eval vm_compute in ("<<<M959>>>" ++ check (runes_of_ascii "packet A {
-    u8 x `tab
-	x`,
-}")).
-Eval vm_compute in ("<<<M759>>>" ++ check (runes_of_ascii "= u64 ; u32 MetaData packet {")).
-Eval vm_compute in ("<<<M1867>>>" ++ check (runes_of_ascii "// c x
-    packet A { }
+Eval vm_compute in ("<<<M1588>>>" ++ check (runes_of_ascii "packet A {	u16 len 
+@lengthOf( body
 
+    )
+    `x
+`
+,
+    u32
+
+crc
+
+    @calculatedFrom(	""CRC32"" 
+)`x
+`
+,
+
+string
+
+body
+,	} ")).
+Eval vm_compute in ("<<<M1261>>>" ++ check (runes_of_ascii "packet B {
+    u8 a,
+}
+root packet P {
+    u8 K,
+    u64 L @lengthOf(Body),
+    match K as Body {
+        1 : B,
+    },
+}
 ")).
-Eval vm_compute in ("<<<M1105>>>" ++ check (runes_of_ascii "MetaData // c
-tag { }")).
-Eval vm_compute in ("<<<M1131>>>" ++ check (runes_of_ascii "MetaData
+Eval vm_compute in ("<<<M1150>>>" ++ check (runes_of_ascii "MetaData leftPad { chars
 // c
-u { }")).
-Eval vm_compute in ("<<<M1022>>>" ++ check (runes_of_ascii "// c" ++ [8239]%N ++ runes_of_ascii "
+MetaDataX , } packet repeatCount { char[ 255 ] uint8x `" ++ [233]%N ++ runes_of_ascii "` , } MetaData pack { As Foo , }")).
+Eval vm_compute in ("<<<M1182>>>" ++ check (runes_of_ascii "MetaData leftPad { chars MetaDataX , } packet repeatCount { char[ 255 ] uint8x `" ++ [233]%N ++ runes_of_ascii "` , } MetaData pack {
+// c
+As Foo , }")).
+Eval vm_compute in ("<<<M239>>>" ++ check (runes_of_ascii "options { lengthOf =3
+trueish
+// packet A { u8 x, }
+// trailing space 
+=
+    true
+; calculatedFrom =
+007;} 	 ")).
+Eval vm_compute in ("<<<M24>>>" ++ check (runes_of_ascii "options { metadata
+= '\x00' ;
+    u128
+=
+    ""CRC32"" ; charz = ' 'options1 = 00 ; }
+packet string_ { }
+")).
+Eval vm_compute in ("<<<M1317>>>" ++ check (runes_of_ascii "packet FooBar {
+    u8 a,
+}
+packet foo_bar {
+    u16 b,
+}
+root packet R {
+    FooBar,
+    foo_bar,
+}
+")).
+Eval vm_compute in ("<<<M554>>>" ++ check (runes_of_ascii "
+packet packet
+    asx {match u128 as lengthOf
+{
+//	t
+// `tick` ""quote"" 'q'
+255 : x ,
+    } ,	}")).
+Eval vm_compute in ("<<<M887>>>" ++ check (runes_of_ascii "packet A {
+  match k as n {
+    [1, 22, ""c c"", 4, 5, ""f"", 7, 8, ""i"", 10] : B
+    2 : C
+  },
+}")).
+Eval vm_compute in ("<<<M870>>>" ++ check (runes_of_ascii "packet A {
+  match k as n {
+    [1, ""bb"", 007, ""d"", 5, ""f"", 7, ""h"", 9] : B
+    2 : C
+  },
+}")).
+Eval vm_compute in ("<<<M614>>>" ++ check (runes_of_ascii "
+packet
+    asx {match u128 as lengthOf
+{
+//	t
+// `tick` ""quote"" 'q'
+255 : x ,
+    , }	}")).
+Eval vm_compute in ("<<<M1307>>>" ++ check (runes_of_ascii "  packet
+orderItem 
+{
+	u8
+    a
+    , 
+}root
+packet
+newOrder{ orderItem	, 
+u8
+x
+	,
+}")).
+Eval vm_compute in ("<<<M116>>>" ++ check (runes_of_ascii "root packet Z9_ { repeat lengthOf
+pack , repeat
+    A {	repeatCount`doc` ,
+    },	}")).
+Eval vm_compute in ("<<<M1723>>>" ++ check (runes_of_ascii "root packet 
+P
+{
+
+    u16 a	,
+
+u32 Sum
+	@calculatedFrom(""CRC32"")
+
+    , }
+")).
+Eval vm_compute in ("<<<M903>>>" ++ check (runes_of_ascii "packet A { Inner { match k as n { [1,22,007,4,5,66,7,8,9,10,11] : B, }, }, }")).
+Eval vm_compute in ("<<<M1099>>>" ++ check (runes_of_ascii "packet A {
+    match k as n {
+        1 : B // c
+        , // d
+    },
+}")).
+Eval vm_compute in ("<<<M1656>>>" ++ check (runes_of_ascii "MetaData M {
+    u8 x `tab
+        	x`,
+    T t `tab
+        	x`,
+}")).
+Eval vm_compute in ("<<<M785>>>" ++ check (runes_of_ascii "packet A {
+  match k as n {
+    [""a"", 22] : B
+    2 : C
+  },
+}")).
+Eval vm_compute in ("<<<M1706>>>" ++ check (runes_of_ascii "root packet P {
+    hdr {
+        u8 a,
+    },
+    u8 x,
+}")).
+Eval vm_compute in ("<<<M1198>>>" ++ check (runes_of_ascii "
+// c
+packet body { i32 f32a `{ , }` , } options { }")).
+Eval vm_compute in ("<<<M332>>>" ++ check (runes_of_ascii "MetaData o
+    { } MetaData T  {
+    } options { }")).
+Eval vm_compute in ("<<<M1449>>>" ++ check (runes_of_ascii "
+root
+
+packet
+	chars
+
+{ i16 
+leftPad
+, 
+}
+")).
+Eval vm_compute in ("<<<M1921>>>" ++ check (runes_of_ascii "options {
+    a = 1;// a
+    b = 2// b
+}")).
+Eval vm_compute in ("<<<M1615>>>" ++ check (runes_of_ascii "root packet u {
+}// trailing space ")).
+Eval vm_compute in ("<<<M1613>>>" ++ check (runes_of_ascii "
+
+  // c
+    MetaData  tag
+{
+} ")).
+Eval vm_compute in ("<<<M1048>>>" ++ check (runes_of_ascii "packet A {
+ u8 x `d" ++ [8203]%N ++ runes_of_ascii "`, // c" ++ [8203]%N ++ runes_of_ascii "
+}")).
+Eval vm_compute in ("<<<M1953>>>" ++ check (runes_of_ascii "  packet
+
+int
+{
+} 
+//	t
+")).
+Eval vm_compute in ("<<<M1470>>>" ++ check (runes_of_ascii "
+// c" ++ [133]%N ++ runes_of_ascii "
+packet  A {}
+")).
+Eval vm_compute in ("<<<M22>>>" ++ check (runes_of_ascii "packet leftPad {
+}")).
+Eval vm_compute in ("<<<M997>>>" ++ check (runes_of_ascii "// c" ++ [5760]%N ++ runes_of_ascii "
 packet A {
 }")).
-Eval vm_compute in ("<<<M1004>>>" ++ check (runes_of_ascii "packet A {
-}// c" ++ [8202]%N)).
-Eval vm_compute in ("<<<M566>>>" ++ check (runes_of_ascii "
-packet
-    asx")).
-Eval vm_compute in ("<<<M1804>>>" ++ check (runes_of_ascii "// " ++ [27880; 37322]%N ++ runes_of_ascii "
- 
+Eval vm_compute in ("<<<M172>>>" ++ check (runes_of_ascii "packet
+len { }
+
 ")).
-Eval vm_compute in ("<<<M765>>>" ++ check (runes_of_ascii "/" ++ [65533; 65533; 65533]%N)).
+Eval vm_compute in ("<<<M310>>>" ++ check (runes_of_ascii "
+MetaData A {}
+")).
+Eval vm_compute in ("<<<M732>>>" ++ check (runes_of_ascii "// a
+// b
+")).
+Eval vm_compute in ("<<<M157>>>" ++ check (runes_of_ascii "//
+
+")).
